@@ -214,7 +214,16 @@ static inline int spec_div_ok(uint64_t r, uint64_t n, uint64_t d, unsigned bits,
     { uint32_t a = (uint32_t)n, b = (uint32_t)d;
       return r == (uint64_t)(rem ? __CPROVER_uninterpreted_rem_u32(a, b) : __CPROVER_uninterpreted_div_u32(a, b)); }
   }
-  if (sg) return r == (uint64_t)(rem ? __CPROVER_uninterpreted_rem_i64((int64_t)n, (int64_t)d) : __CPROVER_uninterpreted_div_i64((int64_t)n, (int64_t)d));
+  if (sg) {
+    /* either the signed divide instruction, or -- truncating division by definition -- the unsigned divide instruction on
+     * the magnitudes with the sign of the quotient = sign(n) xor sign(d) and the sign of the remainder = sign(n)
+     * (vec2x64i divides |x| by |y| with the unsigned divider and negates) */
+    int64_t a = (int64_t)n, b = (int64_t)d;
+    uint64_t ma = a < 0 ? (uint64_t)0 - n : n, mb = b < 0 ? (uint64_t)0 - d : d;
+    uint64_t mq = rem ? __CPROVER_uninterpreted_rem_u64(ma, mb) : __CPROVER_uninterpreted_div_u64(ma, mb);
+    int neg = rem ? (a < 0) : ((a < 0) != (b < 0));
+    return r == (uint64_t)(rem ? __CPROVER_uninterpreted_rem_i64(a, b) : __CPROVER_uninterpreted_div_i64(a, b)) || r == (neg ? (uint64_t)0 - mq : mq);
+  }
   return r == (rem ? __CPROVER_uninterpreted_rem_u64(n, d) : __CPROVER_uninterpreted_div_u64(n, d));
 }
 #else
@@ -236,6 +245,17 @@ static inline int spec_div_ok(uint64_t r, uint64_t n, uint64_t d, unsigned bits,
   }
 }
 #endif
+
+/* ---- C05: Euclidean witness of a quotient/remainder pair WITHOUT a multiplier.  spec_subchain(n, q, d) = n - sum_j q_j * (d << j),
+ * accumulated from the top bit of q down, in 64-bit arithmetic (exact for bits <= 32: the sum is q * d < 2^64).  For 0 < d,
+ *      r < d  &&  spec_subchain(n, q, d, bits) == r     <=>     q == n / d  &&  r == n % d        (lemma L5, AvelLemmas.lean;
+ * CBMC checks the same C text exhaustively at 8 bits).  It is the shape in which shift-subtract dividers accumulate, so a loop
+ * invariant over it is inductive by bit-vector reasoning alone (no multiplier circuit in the query). */
+static inline uint64_t spec_subchain(uint64_t n, uint64_t q, uint64_t d, unsigned bits) {
+  uint64_t c = n;
+  for (unsigned j = bits; j-- > 0; ) c = c - (((q >> j) & 1) ? (d << j) : (uint64_t)0);
+  return c;
+}
 
 /* ---- C14: Granlund-Montgomery division by an invariant unsigned integer (PLDI'94, Fig. 4.1), N = 32 / 64.
  * For 1 <= d < 2^N, l = ceil(log2 d), m' = floor(2^N (2^l - d) / d) + 1, sh1 = min(l, 1), sh2 = max(l - 1, 0):
